@@ -944,6 +944,9 @@ Proof.
   - exact (capacity_own st nx v (Some n) true r D L Hr Hinv).
   - exact (capacity_own st nx v None false r D L Hr Hinv).
   - exact (capacity_own st nx v None false r D L Hr Hinv).
+  - (* OViews *)
+    unfold sp_views in Hr. destruct (get_a v st) as [av|]; [|discriminate]. destruct (acap c (a_bk av)); [|discriminate].
+    injection Hr as <-. cbn [ok_res s_nx s_st s_evs leak_of drops flat_map]. perm_count.
   - (* OSpareWrite: k values created, all of them visible *)
     unfold sp_spare_write in Hr. destruct (get_a v st) as [av|] eqn:Hg; [|discriminate]. injection Hr as <-.
     cbn [ok_res s_nx s_st s_evs leak_of drops flat_map].
